@@ -3,15 +3,23 @@
 #include "vkeys.h"
 using namespace v;
 
-struct Cell { int prov; std::string key; int octlen; jwt_alg_t alg; int op; int flag = 0; int attr = 0; };   // attr 1: the JWK itself carries "alg": <the algorithm in use> (1: pinned by the key and by setkey; 2: by the key alone, setkey gets JWT_ALG_NONE); attr 3: members written with '=' padding  // op 0 generate, 1 verify; flag 1: the JWK carries "alg":256, so the item is flagged with an error although its key material loaded (setkey takes such items)
+struct Cell { int prov; std::string key; int octlen; jwt_alg_t alg; int op; int flag = 0; int attr = 0; int warm = 0; };   // attr 1: the JWK itself carries "alg": <the algorithm in use> (1: pinned by the key and by setkey; 2: by the key alone, setkey gets JWT_ALG_NONE); attr 3: members written with '=' padding  // op 0 generate, 1 verify; flag 1: the JWK carries "alg":256, so the item is flagged with an error although its key material loaded (setkey takes such items)
 static Cell CUR;
-static std::string cell_json(const Cell &c) { return "{\"prov\":" + std::to_string(c.prov) + ",\"key\":\"" + c.key + "\",\"octlen\":" + std::to_string(c.octlen) + ",\"alg\":\"" + jwt_alg_str(c.alg) + "\",\"op\":\"" + (c.op ? "verify" : "generate") + "\",\"flag\":" + std::to_string(c.flag) + ",\"attr\":" + std::to_string(c.attr) + "}"; }
+static std::string cell_json(const Cell &c) { return "{\"prov\":" + std::to_string(c.prov) + ",\"key\":\"" + c.key + "\",\"octlen\":" + std::to_string(c.octlen) + ",\"alg\":\"" + jwt_alg_str(c.alg) + "\",\"op\":\"" + (c.op ? "verify" : "generate") + "\",\"flag\":" + std::to_string(c.flag) + ",\"attr\":" + std::to_string(c.attr) + ",\"warm\":" + std::to_string(c.warm) + "}"; }
 
 static std::map<std::string, KeySpec> FIX;
 static const KeySpec &fixture(const std::string &n) { auto it = FIX.find(n); if (it != FIX.end()) return it->second; return FIX[n] = load_fixture(n); }
 static bool gnutls_supported(const KeySpec &k, jwt_alg_t a) { if (a == JWT_ALG_ES256K) return false; if (k.kind == K_EC) return k.crv == "P-256" || k.crv == "P-384" || k.crv == "P-521"; return true; }
 
-// returns violated clause or ""
+// "warm" cells: the very builder / checker has just SUCCEEDED with this very key under another algorithm of the family for which the key is
+// adequate (HS256 with 32 octets, ES256 with P-256, RS256 ...); the floor of the cell's algorithm holds all the same. warm 1: a second setkey
+// names the cell's algorithm; warm 2: the callback names it (setkey still says the warm-up algorithm).
+static jwt_alg_t warm_alg(const KeySpec &k, jwt_alg_t not_this) {
+  static const jwt_alg_t all[] = {JWT_ALG_HS256, JWT_ALG_HS384, JWT_ALG_HS512, JWT_ALG_RS256, JWT_ALG_PS384, JWT_ALG_ES256, JWT_ALG_ES256K, JWT_ALG_ES384, JWT_ALG_ES512, JWT_ALG_EDDSA};
+  for (jwt_alg_t a : all) { const AlgInfo *ai = alg_info(a); if (a != not_this && ai && ai->kind == k.kind && strength_ok(k, a)) return a; }
+  return JWT_ALG_NONE;
+}
+static int warm_cb_b(jwt_t *, jwt_config_t *cfg) { if (cfg->ctx) cfg->alg = *(jwt_alg_t *)cfg->ctx; return 0; }
 static std::string run_cell(const Cell &c, const KeySpec &k, bool *nt) {
   Stats &st = stats(); CUR = c; set_provider(c.prov); set_now(1700000000);
   bool ok_strength = strength_ok(k, c.alg);
@@ -29,7 +37,10 @@ static std::string run_cell(const Cell &c, const KeySpec &k, bool *nt) {
   const AlgInfo *ai = alg_info(c.alg);
   if (c.op == 0) {
     jwt_builder_t *b = jwt_builder_new(); std::string r;
-    if (jwt_builder_setkey(b, c.attr == 2 ? JWT_ALG_NONE : c.alg, priv.item)) { jwt_builder_free(b); return ok_strength ? "setkey-refuses-adequate-key" : ""; }
+    jwt_alg_t wa = c.warm ? warm_alg(k, c.alg) : JWT_ALG_NONE, cell_alg = c.alg; bool warmed = false;
+    if (wa != JWT_ALG_NONE && !(c.prov == 1 && !gnutls_supported(k, wa)) && !jwt_builder_setkey(b, wa, priv.item)) { char *w = jwt_builder_generate(b); warmed = w != nullptr; free(w); if (warmed) st.cls("warm-cells(object-just-succeeded-with-this-key-under-another-alg)"); }
+    if (warmed && c.warm == 2) jwt_builder_setcb(b, warm_cb_b, &cell_alg);
+    else if (jwt_builder_setkey(b, c.attr == 2 ? JWT_ALG_NONE : c.alg, priv.item)) { jwt_builder_free(b); return ok_strength ? "setkey-refuses-adequate-key" : ""; }
     jwt_builder_error_clear(b);
     char *out = jwt_builder_generate(b);
     int flag = jwt_builder_error(b); std::string msg = jwt_builder_error_msg(b) ? jwt_builder_error_msg(b) : "";
@@ -58,7 +69,12 @@ static std::string run_cell(const Cell &c, const KeySpec &k, bool *nt) {
       if (!sg.empty()) { tok = in + "." + b64u_enc(sg); st.cls("cross-family-token-signed-with-the-key's-native-alg"); }
     }
     jwt_checker_t *ch = jwt_checker_new(); std::string r;
-    if (jwt_checker_setkey(ch, c.attr == 2 ? JWT_ALG_NONE : c.alg, pub.item)) { jwt_checker_free(ch); return ok_strength ? "setkey-refuses-adequate-key" : ""; }
+    jwt_alg_t wa = c.warm ? warm_alg(k, c.alg) : JWT_ALG_NONE, cell_alg = c.alg; bool warmed = false;
+    if (wa != JWT_ALG_NONE && !(c.prov == 1 && !gnutls_supported(k, wa)) && !jwt_checker_setkey(ch, wa, pub.item)) {
+      std::string wt = ref_token(k, wa, std::string("{\"alg\":\"") + jwt_alg_str(wa) + "\"}", "{\"sub\":\"warm\"}"); warmed = !wt.empty() && jwt_checker_verify(ch, wt.c_str()) == 0;
+      if (warmed) st.cls("warm-cells(object-just-succeeded-with-this-key-under-another-alg)"); }
+    if (warmed && c.warm == 2) jwt_checker_setcb(ch, warm_cb_b, &cell_alg);
+    else if (jwt_checker_setkey(ch, c.attr == 2 ? JWT_ALG_NONE : c.alg, pub.item)) { jwt_checker_free(ch); return ok_strength ? "setkey-refuses-adequate-key" : ""; }
     jwt_checker_error_clear(ch);
     int ret = jwt_checker_verify(ch, tok.c_str()); int flag = jwt_checker_error(ch); std::string msg = jwt_checker_error_msg(ch) ? jwt_checker_error_msg(ch) : "";
     if (ret == 0 && !ok_strength) r = std::string("verify-succeeds-below-floor:") + (k.kind == K_OCT ? "hmac" : k.kind == K_RSA ? "rsa" : k.kind == K_EC ? "ec" : "okp");
@@ -80,7 +96,7 @@ int main(int argc, char **argv) {
   if (!a.replay.empty()) {
     J j = J::parse(read_file(a.replay)); if (!j) return 2;
     Cell c; c.prov = (int)json_integer_value(json_object_get(j.p, "prov")); c.key = json_string_value(json_object_get(j.p, "key")); c.octlen = (int)json_integer_value(json_object_get(j.p, "octlen"));
-    c.alg = jwt_str_alg(json_string_value(json_object_get(j.p, "alg"))); c.op = !strcmp(json_string_value(json_object_get(j.p, "op")), "verify"); c.flag = (int)json_integer_value(json_object_get(j.p, "flag")); c.attr = (int)json_integer_value(json_object_get(j.p, "attr"));
+    c.alg = jwt_str_alg(json_string_value(json_object_get(j.p, "alg"))); c.op = !strcmp(json_string_value(json_object_get(j.p, "op")), "verify"); c.flag = (int)json_integer_value(json_object_get(j.p, "flag")); c.attr = (int)json_integer_value(json_object_get(j.p, "attr")); c.warm = (int)json_integer_value(json_object_get(j.p, "warm"));
     KeySpec k = c.octlen > 0 ? oct_key("oct" + std::to_string(c.octlen), c.octlen) : fixture(c.key);
     std::string r = run_cell(c, k, nullptr); if (!r.empty()) fprintf(stderr, "replay: %s\n", r.c_str());
     return r.empty() ? 0 : 3;
@@ -109,6 +125,10 @@ int main(int argc, char **argv) {
   { size_t n0 = cells.size(); for (size_t i = 0; i < n0; i++) { if (cells[i].first.attr) continue; auto c2 = cells[i]; c2.first.attr = 3; cells.push_back(c2); } }
   // every cell again with an item that is flagged with an error although its key material loaded
   { size_t n0 = cells.size(); for (size_t i = 0; i < n0; i++) { if (cells[i].first.attr) continue; if (cells[i].first.key == "oct" && cells[i].first.octlen % 8 && cells[i].first.octlen > 70) continue; auto c2 = cells[i]; c2.first.flag = 1; cells.push_back(c2); } }
+  // every same-family plain cell again on an object that has just succeeded with the key under another algorithm (oct keys: lengths around the thresholds)
+  { size_t n0 = cells.size(); for (size_t i = 0; i < n0; i++) { const Cell &c0 = cells[i].first; const AlgInfo *ai = alg_info(c0.alg); if (!ai || ai->kind != cells[i].second.kind || c0.attr || c0.flag) continue;
+      if (c0.key == "oct" && !(c0.octlen >= 30 && c0.octlen <= 66)) continue; if (warm_alg(cells[i].second, c0.alg) == JWT_ALG_NONE) continue;
+      auto c2 = cells[i]; c2.first.warm = 1; cells.push_back(c2); c2.first.warm = 2; cells.push_back(c2); } }
   if (a.thorough() && a.worker == 0) {  // fresh RSA keys around the threshold
     static std::vector<KeySpec> fresh; for (const char *w : {"rsa2047", "rsa2048", "rsa1024"}) fresh.push_back(gen_key(w));
     for (auto &k : fresh) { FIX[k.name] = k; for (int prov = 0; prov < 2; prov++) for (int op = 0; op < 2; op++) for (auto al : RS) cells.push_back({Cell{prov, k.name, 0, al, op}, k}); }
